@@ -7,7 +7,7 @@ from ..model import call_many
 from ..normtools import enc_def, enc_typ, state_of
 from ..pool import guarded, run_cases
 
-THEOREMS = ["C08_idempotent", "C08_rounds", "C08_nontrivial_round", "C08_rest_text_fixpoint"]
+THEOREMS = ["C08_idempotent", "C08_rounds", "C08_nontrivial_round", "C08_rest_text_fixpoint", "C08_announced_line_fixpoint"]
 # (tag, format, cfg, IR domain)
 CONFIGS = [("docstring-rest", "docstring", {"docstring_format": "rest"}, "any"),
            ("docstring-rest-edd", "docstring", {"docstring_format": "rest", "parse_emit_default_doc": True}, "any"),
